@@ -155,6 +155,13 @@ def replayLine (s : DState) (op : String) (mid : Nat) (args : List String) (orc 
       | some p => fin (resolveEmpt (fun e => Map.drainFilter m p take (forget == "1") { o with empt := e }) glObs)
   | "drain", [take, forget] => nat take fun take => needMap fun m =>
       fin (Map.drain m take (forget == "1") o)
+  | "intoiter", [take] => nat take fun take => needMap fun m =>
+      match Map.intoIter m take o with
+      | .ok out =>
+        -- the map is gone: report what the call itself showed
+        .ok (delMap s mid) [("ret", fmtRet out.ret), ("da", toString out.cost.allocs), ("df", toString out.cost.frees),
+                            ("drop", fmtIds out.cost.dropped), ("retd", fmtIds out.returned), ("panic", "-")]
+      | .error f => .fault f
   | "iter", [] => needMap fun m =>
       match Map.iter m o with
       | .ok out => .ok s (obsFields m out)
